@@ -437,17 +437,22 @@ func (r *resolver) applyDeviation(y *Module, d *Deviation) error {
 	}
 	if d.Delete != nil {
 		if d.Delete.units != "" {
-			if hasType.Units() == d.Delete.units {
+			if hasType.Units() != d.Delete.units {
 				return fmt.Errorf("cannot delete units '%s' != '%s' on %s",
 					d.Delete.units, hasType.Units(), d.Ident())
 			}
 			hasType.setUnits("")
 		}
 		if d.Delete.HasDefault() {
-			if hasType.DefaultValue() == d.Delete.DefaultValue() {
-				return fmt.Errorf("cannot delete units '%s' != '%s' on %s",
-					d.Delete.Default(), hasType.DefaultValue(),
-					d.Ident())
+			var have []string
+			if v, multi := hasType.(HasDefaultValues); multi {
+				have = v.Default()
+			} else if hasType.HasDefault() {
+				have = []string{fmt.Sprint(hasType.DefaultValue())}
+			}
+			if !isArrayStringEqual(have, d.Delete.Default()) {
+				return fmt.Errorf("cannot delete default '%s' != '%s' on %s",
+					d.Delete.Default(), have, d.Ident())
 			}
 			hasType.clearDefault()
 		}
